@@ -1,4 +1,5 @@
 CONSTANTS
+  Twins = {"none", "sibling"}
   Modes = {"single", "multi"}
   Kinds = {"struct", "newtype_struct", "unit_struct", "unit_enum", "tagged_enum", "alias", "const"}
   Annotations = {"none", "plain", "path", "args"}
